@@ -30,6 +30,8 @@ RootMentions ==
 \cup {M("or", <<n>>) : n \in StringNames}
 \cup {M("orset", <<n>>) : n \in StringNames}
 \cup {M("or2", <<pr[1], pr[2]>>) : pr \in {q \in StringNames \X StringNames : q[1] # q[2]}}
+\cup {M("typenull", <<n>>) : n \in StringNames}      \* null // {type: "@n", nullable: true}
+\cup {M("ornull", <<n>>) : n \in StringNames}        \* null // {or: ["@n", "integer"], nullable: true}
 \cup {M("allOf", <<n>>) : n \in ObjectNames}
 \cup {M("addprops", <<n>>) : n \in Names}
 
